@@ -394,12 +394,13 @@ impl<'a, Msg> Iterator for NetworkIter<'a, Msg> {
             }
             NetworkIter::Ordered(active, it) => {
                 if let Some((src, dst, messages, index)) = active {
-                    let msg = messages.get(*index).unwrap(); // messages.len() > 1
-                    return Some(Envelope {
-                        src: *src,
-                        dst: *dst,
-                        msg,
-                    });
+                    let (src, dst, messages) = (*src, *dst, *messages);
+                    *index += 1;
+                    if let Some(msg) = messages.get(*index) {
+                        return Some(Envelope { src, dst, msg });
+                    }
+                    // end of this flow: continue with the next one
+                    *active = None;
                 }
                 it.next().map(|(&(src, dst), messages)| {
                     let msg = messages.front().unwrap(); // messages.len() > 1
